@@ -596,9 +596,13 @@ archive_write_pax_header(struct archive_write *a,
 
 	char paxbuff[512];
 	char ustarbuff[512];
-	char ustar_entry_name[256];
-	char pax_entry_name[256];
-	char gnu_sparse_name[256];
+	/*
+	 * build_ustar_entry_name() can produce a 155-byte prefix plus its
+	 * '/', plus a 100-byte name: 256 bytes and the terminating NUL.
+	 */
+	char ustar_entry_name[257];
+	char pax_entry_name[257];
+	char gnu_sparse_name[257];
 	struct archive_string entry_name;
 
 	ret = ARCHIVE_OK;
